@@ -135,10 +135,10 @@ def expected(level: rb.Level, state, new):
                 out.append([row, expected(sub, och, ch)])
                 continue
             # same key, other text
-            if rule.logic == "ignore_changes":
+            if _logic(rule) == "ignore_changes":
                 out.append([orow, och])
                 continue
-            if rule.logic == "permanent":
+            if _logic(rule) == "permanent":
                 out.append([orow, removed_children(old[2][2], och)])
                 continue
             out.append([row, expected(sub, [], ch)])
@@ -152,9 +152,15 @@ def expected(level: rb.Level, state, new):
         rule, key, sub = g
         if (rule.uid, key) in consumed:
             continue
-        if rule.logic == "permanent":
+        if _logic(rule) == "permanent":
             out.append([row, removed_children(sub, ch)])
     return out
+
+
+def _logic(rule):
+    """the logic in force for a rule: an %ordered rule is processed by common.ordered whatever %logic it also names
+    (the rule compiler gives %ordered precedence), so its rows are removed and re-created like any other"""
+    return None if rule.ordered else rule.logic
 
 
 def removed_children(level, children):
@@ -164,6 +170,6 @@ def removed_children(level, children):
         g = rb.govern(level, row)
         if g is None:
             out.append([row, ch])
-        elif g[0].logic == "permanent":
+        elif _logic(g[0]) == "permanent":
             out.append([row, removed_children(g[2], ch)])
     return out
